@@ -6,6 +6,7 @@ import (
 	"strings"
 	"time"
 
+	exserver "github.com/cybergarage/go-redis/examples/go-redisd/server"
 	"github.com/cybergarage/go-redis/redis"
 	"verif/sim/resp"
 	"verif/sim/sim"
@@ -76,6 +77,12 @@ func newWorld(tape *sim.Tape, o *Outcome) *world {
 		s.Logf("calls", "call on unknown connection %s: %s", call.CID, call.Sig)
 	}
 	return w
+}
+
+// useExample replaces the double by the bundled example server (its own store as the handler).
+func (w *world) useExample() {
+	ex := exserver.NewServer()
+	w.Srv = ex.Server
 }
 
 func (w *world) addConn() *connRun {
